@@ -560,13 +560,14 @@ static RETCODE adfFileSeekOFS_ ( struct AdfFile * const file,
 
     unsigned blockSize = file->volume->datablockSize;
 
-    file->pos = min ( pos, file->fileHdr->byteSize );
+    pos = min ( pos, file->fileHdr->byteSize );
 
     // EOF?
-    if ( file->pos == file->fileHdr->byteSize ) {
+    if ( pos == file->fileHdr->byteSize ) {
         return adfFileSeekEOF_ ( file );
     }
 
+    /* file->pos is 0 after adfFileSeekStart_ and advances with the walk */
     uint32_t offset = 0;
     while ( offset < pos ) {
         unsigned size = min ( pos - offset, (unsigned) ( blockSize - file->posInDataBlk ) );
